@@ -738,6 +738,15 @@ func Mutations(thorough bool) []Mutation {
 			s.Parent.Vals[s.Idx] = &Node{Kind: 'm', Keys: []string{"$ref"}, Vals: []*Node{{Kind: 'v', Tag: "str", Value: "#" + s.Path[:i]}}}
 			return true
 		}, true},
+		{"ref-to-enclosing-component", func(s Site) bool {
+			// a cycle back to the component the node lives in, from however deep inside it
+			seg := strings.Split(s.Path, "/")
+			if len(seg) < 5 || seg[1] != "components" {
+				return false
+			}
+			s.Parent.Vals[s.Idx] = &Node{Kind: 'm', Keys: []string{"$ref"}, Vals: []*Node{{Kind: 'v', Tag: "str", Value: "#" + strings.Join(seg[:4], "/")}}}
+			return true
+		}, true},
 		{"duplicate-sibling-key", func(s Site) bool {
 			if s.Parent.Kind != 'm' {
 				return false
